@@ -271,8 +271,23 @@ def calibrate_types(bdir):
     return out
 
 
-def run_one(bdir, system, events, lint=True, extra_args=(), view_from=0):
-    """Returns the execution (list of records for EmuTrace) and the EmuRun."""
+def tie_clocks(events, t0=1000, dt=10):
+    """Clocks in which every other pair of consecutive events of the SAME thread happens at the same
+    instant (order inside a stream is kept by the emulator; ties between streams are free, so those
+    are not tied)."""
+    out = []
+    for i, e in enumerate(events):
+        if i > 0 and i % 2 == 1 and events[i - 1]["th"] == e["th"]:
+            out.append(out[-1])
+        else:
+            out.append((out[-1] + dt) if out else t0)
+    return out
+
+
+def run_one(bdir, system, events, lint=True, extra_args=(), view_from=0, ties=False):
+    """Returns the execution (list of records for EmuTrace) and the EmuRun.
+    ties: some consecutive events of one thread share their clock; the timelines then show only the
+    state after the last event of such a group (the earlier ones carry no view)."""
     import shutil
     d = core.mkscratch("eh")
     try:
@@ -280,7 +295,8 @@ def run_one(bdir, system, events, lint=True, extra_args=(), view_from=0):
         conc = [concretise(e) for e in events]
         models = require_for(set(system["models"]))
         clocks = synth.materialise(td, system, conc, models=models,
-                                   meta_extra=meta_extra_for(system))
+                                   meta_extra=meta_extra_for(system),
+                                   clocks=tie_clocks(events) if ties else None)
         from . import emu
         args = (["-l"] if lint else []) + list(extra_args)
         r = emu.ovniemu(bdir, td, args)
@@ -300,11 +316,14 @@ def run_one(bdir, system, events, lint=True, extra_args=(), view_from=0):
                 perr = repr(ex)
         recs = [dict(synth.sys_record(system), lint=bool(lint),
                      marks=system.get("marks") or [], models=sorted(system["models"]))]
+
+        def tied(i):
+            return i + 1 < len(clocks) and clocks[i + 1] == clocks[i]
         for i, e in enumerate(events):
             rec = {"e": "ev", "th": e["th"], "m": e["m"], "mc": e.get("mc", e["m"][0]),
                    "a": e.get("a", []), "j": bool(e.get("j", False)),
-                   "hasview": vs is not None and i >= view_from,
-                   "view": vs[i] if (vs is not None and i >= view_from) else []}
+                   "hasview": vs is not None and i >= view_from and not tied(i),
+                   "view": vs[i] if (vs is not None and i >= view_from and not tied(i)) else []}
             recs.append(rec)
         verdict = r.verdict if r.verdict in ("ok", "fail") else r.verdict
         recs.append({"e": "end", "verdict": verdict})
@@ -329,10 +348,10 @@ def conformance(ck, bdir, graph, tier, limit_quick=3000, limit_thorough=None, li
         hs += [("extra", ev, None) for ev in extra_histories]
 
     def one(x):
-        kind, events, t = x
-        return run_one(bdir, system, events, lint=lint)
+        k, (kind, events, t) = x
+        return run_one(bdir, system, events, lint=lint, ties=(k % 4 == 3))
 
-    results = core.pmap(one, hs)
+    results = core.pmap(one, list(enumerate(hs)))
     executions = [r[0] for r in results]
     tvr = tv.validate("EmuTrace", "EmuTrace.cfg", executions, None,
                       chunk=max(40, len(executions) // 8 + 1), parallel=8)
